@@ -15,6 +15,7 @@ use winter_utils::{Deserializable, SliceReader};
 use winterfell::AcceptableOptions;
 
 use crate::pool::{make, Honest};
+use crate::replay::ood_patch;
 
 const INTERESTING: [u8; 14] = [0, 1, 2, 3, 7, 8, 0x3f, 0x40, 0x41, 0x7f, 0x80, 0x81, 0xfe, 0xff];
 
@@ -156,6 +157,67 @@ where
     }
 }
 
+/// seed-bound context edits carried past the out-of-domain check by an OOD patch (replay.rs)
+fn ood_patched_case<B, H>(rep: &mut Report, rng: &mut Rng, h: &Honest)
+where
+    B: BaseFut,
+    H: ElementHasher<BaseField = B> + Sync + Send,
+    QuadExtension<B>: FieldElement<BaseField = B>,
+{
+    use winter_air::proof::Context;
+    let ti = h.proof.trace_info().clone();
+    let o = h.proof.options().clone();
+    let nc = h.proof.context.num_constraints();
+    let lde = ti.length() * o.blowup_factor();
+    let fo = o.to_fri_options();
+    let (ext, bc, bd) = (o.field_extension(), o.constraint_batching_method(), o.deep_poly_batching_method());
+    let mk = |q: usize, g: u32| winter_air::ProofOptions::new(q, o.blowup_factor(), g, ext, fo.folding_factor(), fo.remainder_max_degree(), bc, bd);
+    let (desc, ctx) = match rng.usize(6) {
+        0 => ("queries=255", Context::new::<B>(ti.clone(), mk(255, o.grinding_factor()), nc)),
+        1 => ("queries=lde", Context::new::<B>(ti.clone(), mk(lde.min(255), o.grinding_factor()), nc)),
+        2 => ("queries=lde-1", Context::new::<B>(ti.clone(), mk((lde - 1).min(255), o.grinding_factor()), nc)),
+        3 => ("queries=1", Context::new::<B>(ti.clone(), mk(1, o.grinding_factor()), nc)),
+        4 => ("grinding=32", Context::new::<B>(ti.clone(), mk(o.num_queries(), 32), nc)),
+        _ => ("constraints+1", Context::new::<B>(ti.clone(), o.clone(), nc + 1)),
+    };
+    let mut edited = h.proof.clone();
+    edited.context = ctx;
+    let patched = match h.inst.opts.ext {
+        0 => guard(|| ood_patch::<B, B, H>(&edited, &h.spec)),
+        1 => guard(|| ood_patch::<B, QuadExtension<B>, H>(&edited, &h.spec)),
+        _ => {
+            rep.count("ood_patch:skipped-cubic");
+            return;
+        },
+    };
+    let patched = match patched {
+        Ok(Some(p)) => p,
+        Ok(None) => {
+            rep.count("ood_patch:edited-proof-does-not-parse");
+            return;
+        },
+        Err(p) => {
+            rep.evals(1);
+            rep.violation(&format!("{}|while-patching (public Air / parser APIs on the edited proof)", p.sig()), json!({"edit": desc}));
+            return;
+        },
+    };
+    rep.case(format!("ood/{desc}/{}", hex(&h.bytes[..24])).as_bytes(), true);
+    rep.count(&format!("mutation:ood-patched:{desc}"));
+    let accs = [("OptionSet", AcceptableOptions::OptionSet(vec![patched.options().clone()])), ("MinConjecturedSecurity", AcceptableOptions::MinConjecturedSecurity(0))];
+    for (mname, acc) in accs {
+        rep.evals(1);
+        match verify::<B, H>(patched.clone(), &h.spec, &acc) {
+            VerifyOutcome::Accept => rep.count("verify:accept"),
+            VerifyOutcome::Reject(e) => {
+                let step = e.split(['(', '{']).next().unwrap_or("?").trim().to_string();
+                rep.count(&format!("ood_patched_rejected_by:{step}"));
+            },
+            VerifyOutcome::Panic(sig) => rep.violation(&format!("{sig}|verify|{mname}"), json!({"mutation": format!("ood-patched:{desc}"), "options": format!("{:?}", h.inst.opts), "lde": lde})),
+        }
+    }
+}
+
 /// component decoders and parsers on hostile bytes
 fn component_case<E, H>(rep: &mut Report, rng: &mut Rng, h: &Honest)
 where
@@ -273,6 +335,8 @@ pub fn run(args: &Args) {
                 let o = &p64[rng.usize(p64.len())];
                 if component {
                     if rng.bool() { component_case::<QuadExtension<F64>, Blake3_256<F64>>(&mut rep, &mut rng, h) } else { component_case::<CubeExtension<F64>, Blake3_256<F64>>(&mut rep, &mut rng, h) }
+                } else if case % 8 == 0 {
+                    ood_patched_case::<F64, Blake3_256<F64>>(&mut rep, &mut rng, h);
                 } else {
                     proof_case::<F64, Blake3_256<F64>>(&mut rep, &mut rng, h, Some(o));
                 }
@@ -280,12 +344,12 @@ pub fn run(args: &Args) {
             1 => {
                 let h = &p128[rng.usize(p128.len())];
                 let o = &p128[rng.usize(p128.len())];
-                if component { component_case::<F128, Sha3_256<F128>>(&mut rep, &mut rng, h) } else { proof_case::<F128, Sha3_256<F128>>(&mut rep, &mut rng, h, Some(o)) }
+                if component { component_case::<F128, Sha3_256<F128>>(&mut rep, &mut rng, h) } else if case % 8 == 1 { ood_patched_case::<F128, Sha3_256<F128>>(&mut rep, &mut rng, h) } else { proof_case::<F128, Sha3_256<F128>>(&mut rep, &mut rng, h, Some(o)) }
             },
             2 => {
                 let h = &p62[rng.usize(p62.len())];
                 let o = &p62[rng.usize(p62.len())];
-                if component { component_case::<QuadExtension<F62>, Blake3_256<F62>>(&mut rep, &mut rng, h) } else { proof_case::<F62, Blake3_256<F62>>(&mut rep, &mut rng, h, Some(o)) }
+                if component { component_case::<QuadExtension<F62>, Blake3_256<F62>>(&mut rep, &mut rng, h) } else if case % 8 == 2 { ood_patched_case::<F62, Blake3_256<F62>>(&mut rep, &mut rng, h) } else { proof_case::<F62, Blake3_256<F62>>(&mut rep, &mut rng, h, Some(o)) }
             },
             _ => {
                 let h = &p64r[rng.usize(p64r.len())];
